@@ -1725,10 +1725,14 @@ func execAny(cs string) string {
 	if strings.TrimSpace(cs) == "caps" {
 		return execCaps()
 	}
-	obs := execCase(cs)
+	run := execCase
+	if strings.HasPrefix(strings.TrimSpace(cs), "slot ") {
+		run = execSlot
+	}
+	obs := run(cs)
 	if obs == "timeout" {
 		watchdog = 90 * time.Second
-		obs = execCase(cs)
+		obs = run(cs)
 		watchdog = 10 * time.Second
 		if obs == "timeout" {
 			timeouts++
@@ -1769,7 +1773,7 @@ func main() {
 			fmt.Fprintf(os.Stderr, "cases=%d goroutines=%d\n", out.Cases, runtime.NumGoroutine())
 		}
 		dk := ""
-		if strings.Contains(cs, " thr ") || strings.HasPrefix(cs, "free") {
+		if strings.Contains(cs, " thr ") || strings.HasPrefix(cs, "free") || strings.HasPrefix(cs, "slot") {
 			dk = cs
 		}
 		out.Case(key+cs, obs, dk)
@@ -1777,6 +1781,8 @@ func main() {
 		if len(f) > 2 {
 			if f[0] == "free" {
 				out.Count("free/" + f[2])
+			} else if f[0] == "slot" {
+				out.Count("proto/slot")
 			} else {
 				out.Count("proto/" + f[1])
 			}
